@@ -290,6 +290,12 @@ def run(ctx, rep) -> None:
     sort_calls = [c for c in ast.walk(vg.node) if isinstance(c, ast.Call) and norm(c.func) == "topological_sort"]
     ok = order == ["duplicate_ref", "self_edge", "unknown_ref"] and bool(sort_calls) and all(c.lineno > max(l for l, _ in raises) for c in sort_calls)
     rep.check(ok, "C20.R5", "validate_stage_graph: duplicate, self-edge, unknown ref, then cycle detection", f"raises in order {order}; topological_sort last", vg.file, vg.node.lineno, disc="validate-order")
+    # must-pass-through: every normal exit of validate_stage_graph runs the cycle detection
+    top_level_sort = [st for st in vg.node.body if isinstance(st, ast.Expr) and isinstance(st.value, ast.Call) and norm(st.value.func) == "topological_sort"]
+    early = [n for n in ast.walk(vg.node) if isinstance(n, ast.Return) and (not top_level_sort or n.lineno < top_level_sort[0].lineno)]
+    ok = bool(top_level_sort) and not early
+    rep.check(ok, "C20.R5", "validate_stage_graph: every accepted graph went through cycle detection", "topological_sort(stages) is an unconditional statement and no return precedes it" if ok else
+              (f"`return` at line {early[0].lineno} leaves validate_stage_graph before the cycle detection: some cyclic graphs are accepted" if early else "the cycle detection is conditional"), vg.file, early[0].lineno if early else vg.node.lineno, disc="must-sort")
     # the three structural tests
     t = norm(vg.node)
     rep.check("if stage.ref_id in seen:" in t and "seen.add(stage.ref_id)" in t, "C20.R5", "duplicate refs are detected against the refs seen so far", "", vg.file, vg.node.lineno, disc="dup-test")
